@@ -62,3 +62,43 @@ CHECKS["C05"] = dict(
     assumptions=["destination and source live in different roots (disjoint elements, as the property requires)", "forms that materialise an owning temporary are applied only to sources without an empty dimension (owning arrays collapse leading sizes)",
                  "reference model engine/view_model.hpp", "g++ 12 -O0 ASan+UBSan, assertions enabled"],
 )
+
+
+def hist_jobs(prop, tier, cfg="san"):
+    jobs = []
+    for d in (1, 2, 3, 4):
+        for e in (0, 1):
+            depth = {"quick": {1: 3, 2: 3, 3: 3, 4: 3}, "thorough": {1: 5, 2: 4, 3: 4, 4: 4}}[tier][d]
+            jobs.append(Job("histmc", cfg=cfg, defs=["-DHM_D=%d" % d, "-DHM_ELEM=%d" % e], args=["--tier=" + tier, "--prop=" + prop, "--depth=%d" % depth]))
+    return jobs
+
+
+HIST_RULE = ("breadth-first search over operation histories of a pool of two owning arrays a, b (multi::array<T,D,ledger allocator>) plus an immutable source array; state = history replayed on fresh "
+             "objects, deduplicated by (reference-model value of both slots, allocator ids, implementation strides); alphabet (76-106 letters per rank): a=b, b=a, a=std::move(b), b=std::move(a), a=a, "
+             "swap(a,b), a.swap(b), copy/move/default construction, a=+b, element writes, every constructor form x shape menu (incl. empty shapes), a=view / Arr(view) / a=+view / a=const view for a menu of "
+             "source views (whole, rotated, sub-block, strided, empty, flatted/partitioned), a=array<short> / view of it, nested initializer lists, reextent(x) / reextent(x,v) / std::move(a).reextent(x) for "
+             "every shape, reshape, assign(first,last), clear, a={}; every transition runs in a forked child under ASan/UBSan with the live-object registry and allocation ledger on. "
+             "distinct_nontrivial = transitions that changed the model state.")
+HIST_ASSUME = ["reference model engine/hist_model.hpp (value = extents + row-major elements; index-space intersection for reextent)", "all allocator instances equal in this check (unequal instances are C10's business)",
+               "for empty arrays only num_elements()==0, size()==0, is_empty() are asserted (the library collapses extents of empty arrays)", "g++ 12 -O0 ASan+UBSan, assertions enabled",
+               "std::move(a).reextent(x) is modelled as NOT preserving elements when extents change (array.hpp, test/reextent.cpp say so)"]
+
+CHECKS["C04"] = dict(
+    title="value semantics of owning arrays", level="model_checking", engine="E2",
+    claim=("Every history of construct/copy/move/assign/swap/decay/element-write/reextent operations up to depth 3 (thorough 4-5) over the alphabet is executed on real arrays (D=1..4, tracked and trivial element "
+           "types) and compared slot by slot with the value model after every step, plus storage disjointness, self-assignment and move/swap no-copy/no-allocation counters. Independence of copies is decided by "
+           "continuing the history (element writes after copies), not by pointer inequality alone."),
+    jobs=lambda tier: hist_jobs("C04", tier), rule=HIST_RULE + " Reported for C04: violations of transitions whose last operation is a construct/copy/move/assign/swap/decay/element-write letter.", assumptions=HIST_ASSUME,
+)
+CHECKS["C06"] = dict(
+    title="reextent / clear / reshape / assign", level="model_checking", engine="E2",
+    claim=("reextent(x), reextent(x,v), rvalue reextent, reshape, assign(first,last), initializer-list assignment, clear and ={} are applied from EVERY state reachable within the depth bound (so for all "
+           "(old,new) extents pairs of the shape menu, interleaved with all other mutators) and compared with the index-space intersection model; reextent to the current extents must keep data_elements()."),
+    jobs=lambda tier: hist_jobs("C06", tier), rule=HIST_RULE + " Reported for C06: violations of transitions whose last operation is reextent/reshape/assign/clear/={}/={list}.", assumptions=HIST_ASSUME,
+)
+CHECKS["C08"] = dict(
+    title="construct once / destroy once / storage returned", level="model_checking", engine="E2",
+    claim=("The live-object registry (construct-over-live, use/assign/destroy of a dead object), the allocation ledger (unknown/double/size-mismatched deallocate, outstanding blocks/elements when the pool dies) "
+           "and the 0xA5 pre-fill oracle (sizing constructors and reextent must not write trivially-default-constructible elements) are evaluated on every transition of the E2 search over the full alphabet."),
+    jobs=lambda tier: hist_jobs("C08", tier), rule=HIST_RULE + " Reported for C08: registry/ledger/leak oracles on any transition; for int elements the model holds the allocator's pre-fill pattern for never-written elements.", assumptions=HIST_ASSUME,
+)
